@@ -24,6 +24,7 @@ type Mutant struct {
 	New     string   `json:"new"`
 	Edits   []Edit   `json:"edits,omitempty"` // additional edits
 	Patch   string   `json:"patch,omitempty"` // path of a unified diff (relative to /verif) instead of Old/New
+	Base    string   `json:"base,omitempty"`  // path of a (behaviour-preserving) diff applied before the edits: the mutant is made on the refactored tree
 	Expect  []string `json:"expect"`          // rule ids that must report (violated or undecided); empty + Benign => must stay silent
 	Benign  bool     `json:"benign,omitempty"`
 	Known   bool     `json:"known_false_alarm,omitempty"` // benign edit on which the checker is known to raise an alarm (documented limitation)
@@ -181,6 +182,14 @@ func cmdSelftest(args []string) int {
 			if err := copyRepo(dir); err != nil {
 				res.info = err.Error()
 				return
+			}
+			if m.Base != "" {
+				cmd := exec.Command("patch", "-p1", "-s", "-i", filepath.Join(vd, m.Base))
+				cmd.Dir = dir
+				if out, err := cmd.CombinedOutput(); err != nil {
+					res.info = fmt.Sprintf("base patch: %v %s", err, out)
+					return
+				}
 			}
 			edits := append([]Edit{}, m.Edits...)
 			if m.File != "" {
